@@ -218,11 +218,159 @@ Proof.
   intros H. apply zin_true in H. rewrite !norm_axis_nonneg; [reflexivity|lia|]. rewrite Nat2Z.inj_add. lia.
 Qed.
 
+(* ---- np.moveaxis: the insertions of the moved axes never reach behind the leading axes ---- *)
+Lemma nodupb_NoDup l : nodupb l = true -> NoDup l.
+Proof.
+  induction l as [|x t IH]; intros H; [constructor|]. cbn [nodupb] in H. apply andb_true_iff in H. destruct H as [H1 H2].
+  constructor; [|apply IH; exact H2]. intros Hin. apply negb_true_iff in H1.
+  assert (existsb (Nat.eqb x) t = true) by (apply existsb_exists; exists x; split; [exact Hin|apply Nat.eqb_refl]). congruence.
+Qed.
+
+Lemma filter_all {A} (f : A -> bool) l : (forall x, In x l -> f x = true) -> filter f l = l.
+Proof.
+  induction l as [|x l IH]; intros H; [reflexivity|]. cbn [filter]. rewrite (H x (or_introl eq_refl)). f_equal.
+  apply IH. intros y Hy. apply H. right. exact Hy.
+Qed.
+
+(* A: the axes that are not moved, with k more axes behind *)
+Lemma filter_seq_frame src n k : (forall x, In x src -> x < n) ->
+  filter (fun j => negb (existsb (Nat.eqb j) src)) (seq 0 (n + k)) =
+  filter (fun j => negb (existsb (Nat.eqb j) src)) (seq 0 n) ++ seq n k.
+Proof.
+  intros H. rewrite seq_app, filter_app. f_equal. cbn [Nat.add].
+  apply filter_all. intros x Hx. apply in_seq in Hx. apply negb_true_iff.
+  destruct (existsb (Nat.eqb x) src) eqn:E; [|reflexivity]. apply existsb_exists in E. destruct E as [y [Hy E]].
+  apply Nat.eqb_eq in E. subst y. apply H in Hy. lia.
+Qed.
+
+Lemma filter_len_compl {A} (f : A -> bool) l : length (filter f l) + length (filter (fun x => negb (f x)) l) = length l.
+Proof. induction l as [|x l IH]; [reflexivity|]. cbn [filter]. destruct (f x); cbn [negb length]; lia. Qed.
+
+(* B: how many axes are moved *)
+Lemma filter_in_len src : NoDup src -> forall L, NoDup L -> (forall x, In x src -> In x L) ->
+  length (filter (fun j => existsb (Nat.eqb j) src) L) = length src.
+Proof.
+  induction src as [|x t IH]; intros Hnd L HL Hsub.
+  - cbn [existsb]. induction L as [|y L IHL]; [reflexivity|]. cbn [filter]. apply IHL; [inversion HL; assumption|intros z []].
+  - inversion Hnd as [|x' t' Hx Ht]; subst.
+    assert (Hinx : In x L) by (apply Hsub; left; reflexivity).
+    destruct (in_split _ _ Hinx) as [L1 [L2 ->]].
+    assert (HL' : NoDup (L1 ++ L2)) by (eapply NoDup_remove_1; exact HL).
+    assert (Hxn : ~ In x (L1 ++ L2)) by (eapply NoDup_remove_2; exact HL).
+    rewrite filter_app. cbn [filter existsb]. rewrite Nat.eqb_refl. cbn [orb]. rewrite app_length. cbn [length].
+    assert (Hf : forall M, ~ In x M -> filter (fun j => (j =? x) || existsb (Nat.eqb j) t) M = filter (fun j => existsb (Nat.eqb j) t) M).
+    { intros M HM. apply filter_ext_in. intros a Ha. destruct (Nat.eqb_spec a x); [subst; contradiction|reflexivity]. }
+    rewrite !Hf by (intros Hc; apply Hxn; apply in_or_app; tauto).
+    specialize (IH Ht (L1 ++ L2) HL').
+    rewrite filter_app, app_length in IH. rewrite <- IH; [lia|].
+    intros z Hz. assert (In z (L1 ++ x :: L2)) by (apply Hsub; right; exact Hz).
+    apply in_app_or in H. apply in_or_app. destruct H as [H|[H|H]]; [left; exact H| subst; contradiction|right; exact H].
+Qed.
+
+(* C: the (destination, source) pairs sorted by destination *)
+Fixpoint ssorted (l : list (nat * nat)) : Prop :=
+  match l with [] => True | p :: t => (forall q, In q t -> fst p < fst q) /\ ssorted t end.
+
+Lemma insert_sorted_in p l q : In q (insert_sorted p l) <-> q = p \/ In q l.
+Proof.
+  induction l as [|a l IH]; cbn [insert_sorted]; [cbn; intuition|].
+  destruct (Nat.leb (fst p) (fst a)); cbn [In]; [intuition|]. rewrite IH. intuition.
+Qed.
+Lemma insert_sorted_length p l : length (insert_sorted p l) = S (length l).
+Proof. induction l as [|a l IH]; cbn [insert_sorted]; [reflexivity|]. destruct (Nat.leb (fst p) (fst a)); cbn [length]; [reflexivity|rewrite IH; reflexivity]. Qed.
+Lemma insert_sorted_ssorted p l : ssorted l -> (forall q, In q l -> fst q <> fst p) -> ssorted (insert_sorted p l).
+Proof.
+  induction l as [|a l IH]; intros Hs Hne; cbn [insert_sorted]; [cbn; split; [intros q []|exact I]|].
+  destruct Hs as [Ha Hs]. destruct (Nat.leb_spec (fst p) (fst a)) as [Hle|Hgt].
+  - cbn [ssorted]. split; [|split; assumption]. intros q [<-|Hq].
+    + assert (fst a <> fst p) by (apply Hne; left; reflexivity). lia.
+    + specialize (Ha q Hq). assert (fst a <> fst p) by (apply Hne; left; reflexivity). lia.
+  - cbn [ssorted]. split.
+    + intros q Hq. apply insert_sorted_in in Hq. destruct Hq as [->|Hq]; [exact Hgt|apply Ha; exact Hq].
+    + apply IH; [exact Hs|]. intros q Hq. apply Hne. right. exact Hq.
+Qed.
+
+Lemma sort_pairs_in l q : In q (sort_pairs l) <-> In q l.
+Proof.
+  induction l as [|a l IH]; [cbn; tauto|]. unfold sort_pairs in *. cbn [fold_right]. rewrite insert_sorted_in, IH. cbn [In]. intuition.
+Qed.
+Lemma sort_pairs_length l : length (sort_pairs l) = length l.
+Proof. induction l as [|a l IH]; [reflexivity|]. unfold sort_pairs in *. cbn [fold_right]. rewrite insert_sorted_length, IH. reflexivity. Qed.
+Lemma sort_pairs_ssorted l : NoDup (map fst l) -> ssorted (sort_pairs l).
+Proof.
+  induction l as [|a l IH]; intros H; [exact I|]. cbn [map] in H. inversion H as [|x t Hx Ht]; subst.
+  unfold sort_pairs in *. cbn [fold_right]. apply insert_sorted_ssorted; [apply IH; exact Ht|].
+  intros q Hq He. apply Hx. apply (proj1 (sort_pairs_in l q)) in Hq. rewrite <- He. apply in_map. exact Hq.
+Qed.
+
+(* D: strictly increasing destinations below N leave room above the first one *)
+Lemma ssorted_bound N l : ssorted l -> (forall q, In q l -> fst q < N) ->
+  match l with [] => True | p :: _ => fst p + length l <= N end.
+Proof.
+  induction l as [|p t IH]; intros Hs Hb; [exact I|]. destruct Hs as [Hp Hs]. cbn [length].
+  destruct t as [|q t']; [specialize (Hb p (or_introl eq_refl)); cbn; lia|].
+  assert (H1 : fst p < fst q) by (apply Hp; left; reflexivity).
+  assert (H2 := IH Hs (fun r Hr => Hb r (or_intror Hr))). cbn [length] in *. lia.
+Qed.
+
+Lemma insert_at_length k x l : k <= length l -> length (insert_at k x l) = S (length l).
+Proof.
+  revert l. induction k as [|k IH]; intros l H; [destruct l; reflexivity|].
+  destruct l as [|y l]; cbn [length] in H; [lia|]. cbn [insert_at length]. rewrite IH by lia. reflexivity.
+Qed.
+
+(* E: the insertions never reach behind the first N entries *)
+Lemma fold_insert_frame N : forall ps B T, ssorted ps -> (forall q, In q ps -> fst q < N) -> length B + length ps = N ->
+  fold_left (fun ord p => insert_at (fst p) (snd p) ord) ps (B ++ T) =
+  fold_left (fun ord p => insert_at (fst p) (snd p) ord) ps B ++ T.
+Proof.
+  induction ps as [|p ps IH]; intros B T Hs Hb Hl; [reflexivity|]. cbn [fold_left].
+  pose proof (ssorted_bound N (p :: ps) Hs Hb) as Hd. cbn [length] in Hd, Hl.
+  assert (Hle : fst p <= length B) by lia.
+  rewrite insert_at_app_l by exact Hle. apply IH.
+  - destruct Hs as [_ Hs]. exact Hs.
+  - intros q Hq. apply Hb. right. exact Hq.
+  - rewrite insert_at_length by exact Hle. lia.
+Qed.
+
+Lemma map_fst_comb {A B} : forall (a : list A) (b : list B), length a = length b -> map fst (combine a b) = a.
+Proof.
+  induction a as [|x a IH]; intros b H; [reflexivity|]. destruct b as [|y b]; [discriminate H|].
+  cbn [combine map fst]. f_equal. apply IH. injection H as H. exact H.
+Qed.
+
+Theorem moveP_frame src dst n k :
+  NoDup src -> NoDup dst -> length src = length dst -> (forall x, In x src -> x < n) -> (forall x, In x dst -> x < n) ->
+  moveP src dst (n + k) = moveP src dst n ++ seq n k.
+Proof.
+  intros Hs Hd Hlen Hsn Hdn. unfold moveP. rewrite filter_seq_frame by exact Hsn.
+  apply (fold_insert_frame n).
+  - apply sort_pairs_ssorted. rewrite map_fst_comb by (symmetry; exact Hlen). exact Hd.
+  - intros q Hq. apply (proj1 (sort_pairs_in _ _)) in Hq. apply Hdn. destruct q as [d s]. apply in_combine_l in Hq. exact Hq.
+  - rewrite sort_pairs_length, combine_length, <- Hlen, Nat.min_id.
+    pose proof (filter_len_compl (fun j => existsb (Nat.eqb j) src) (seq 0 n)) as Hc.
+    rewrite seq_length in Hc. rewrite filter_in_len in Hc; [lia|exact Hs|apply seq_NoDup|].
+    intros x Hx. apply in_seq. specialize (Hsn x Hx). lia.
+Qed.
+
+Lemma zin_mono n k a : zin n a = true -> zin (n + k) a = true.
+Proof. intros H. apply zin_true in H. apply zin_true. rewrite Nat2Z.inj_add. lia. Qed.
+Lemma forallb_zin_mono n k l : forallb (zin n) l = true -> forallb (zin (n + k)) l = true.
+Proof.
+  intros H. apply forallb_forall. intros x Hx. apply zin_mono. exact (proj1 (forallb_forall _ _) H x Hx).
+Qed.
+Lemma in_map_to_nat_lt n l x : forallb (zin n) l = true -> In x (map Z.to_nat l) -> x < n.
+Proof.
+  intros H Hx. apply in_map_iff in Hx. destruct Hx as [z [<- Hz]]. apply (proj1 (forallb_forall _ _) H) in Hz.
+  apply zin_true in Hz. lia.
+Qed.
+
+(* an in-range operation on the leading axes of an array with k further (item) axes permutes the leading axes the
+   same way and leaves the item axes where they are *)
 Theorem nop_frame o n k P :
-  match o with NMove _ _ => False | _ => True end ->
   nop_inrange o n = true -> nop_perm o n = Some P -> nop_perm o (n + k) = Some (P ++ seq n k).
 Proof.
-  intros Hk Hin Hp. destruct o as [|a b|a b|s d]; cbn [nop_perm nop_inrange] in *; [| | |destruct Hk].
+  intros Hin Hp. destruct o as [|a b|a b|s d]; cbn [nop_perm nop_inrange] in *.
   - injection Hp as <-. rewrite seq_app. reflexivity.
   - apply andb_true_iff in Hin. destruct Hin as [Ha Hb]. unfold swap_perm in *.
     rewrite !norm_axis_frame by assumption. apply zin_true in Ha. apply zin_true in Hb.
@@ -234,27 +382,15 @@ Proof.
     destruct (Z.geb_spec b (Z.of_nat n + 1)); [lia|]. destruct (Z.geb_spec b (Z.of_nat (n + k) + 1)); [lia|].
     cbn [orb] in *. injection Hp as <-. rewrite rollP_frame; [reflexivity|lia|].
     destruct (Nat.ltb_spec (Z.to_nat a) (Z.to_nat b)); lia.
+  - apply andb_true_iff in Hin. destruct Hin as [Hs Hd]. unfold move_perm in *.
+    rewrite !norm_axes_inrange in * by (assumption || (apply forallb_zin_mono; assumption)).
+    destruct (nodupb (map Z.to_nat s)) eqn:E1; cbn [andb] in *; [|discriminate Hp].
+    destruct (nodupb (map Z.to_nat d)) eqn:E2; cbn [andb] in *; [|discriminate Hp].
+    destruct (Nat.eqb_spec (length (map Z.to_nat s)) (length (map Z.to_nat d))) as [El|]; [|discriminate Hp].
+    injection Hp as <-. f_equal. apply moveP_frame; [apply nodupb_NoDup; exact E1|apply nodupb_NoDup; exact E2|exact El| |].
+    + intros x Hx. exact (in_map_to_nat_lt n s x Hs Hx).
+    + intros x Hx. exact (in_map_to_nat_lt n d x Hd Hx).
 Qed.
-
-(* np.moveaxis: the same frame property, bounded (B): leading rank <= 4, up to 2 item axes, every pair of
-   duplicate-free source / destination lists of equal length *)
-Fixpoint sublists_upto (m : nat) (pool : list Z) : list (list Z) :=
-  match m with
-  | 0 => [[]]
-  | S m' => [] :: flat_map (fun x => map (cons x) (sublists_upto m' pool)) pool
-  end.
-Definition move_frame_ok (n k : nat) : bool :=
-  let pool := map Z.of_nat (seq 0 n) in
-  forallb (fun s => forallb (fun d =>
-     match nop_perm (NMove s d) n with
-     | Some P => match nop_perm (NMove s d) (n + k) with
-                 | Some Q => if nop_inrange (NMove s d) n then (if list_eq_dec Nat.eq_dec Q (P ++ seq n k) then true else false) else true
-                 | None => false
-                 end
-     | None => true
-     end) (sublists_upto n pool)) (sublists_upto n pool).
-Theorem move_frame_B : forallb (fun n => forallb (move_frame_ok n) [0; 1; 2]) [0; 1; 2; 3; 4] = true.
-Proof. vm_compute. reflexivity. Qed.
 
 (* ---- the permutations of ShpModel are the ones C15Model's NumPy functions transpose by ---- *)
 Lemma np_swapaxes_perm a b s : np_swapaxes a b s = option_map (fun P => np_transpose P s) (swap_perm a b (length s)).
